@@ -105,8 +105,9 @@ def run_case(case, drv):
         model = drv.call("cfg.getWords", G=g, max=None)
         if got[0] != "ok":
             res.violation("get_words", "unbounded enumeration of a finite language raised / hung", detail={"impl": got})
+        elif len(got[1]) > 3000:
+            res.tag("unbounded_enumeration_truncated")      # the harness stopped the generator: nothing to compare
         elif model is not None:
-            big = drv.call("cfg.langUpTo", G=g, n=max([len(w) for w in got[1]] + [nmax]) if len(ters) <= 2 else nmax)
             short = [w for w in got[1] if len(w) <= nmax]
             if sorted(short) != sorted(lang):
                 res.violation("get_words", "unbounded enumeration misses or invents short words")
